@@ -361,7 +361,26 @@ func (e *FnEnc) encCall(cc *ssa.CallCommon, instr *ssa.Call, pos token.Pos) *Val
 			args = append(args, e.val(a))
 			argTs = append(argTs, a.Type())
 		}
-		if _, isClosure := cc.Value.(*ssa.MakeClosure); isClosure || fn.Parent() != nil {
+		if mc, isClosure := cc.Value.(*ssa.MakeClosure); isClosure || fn.Parent() != nil {
+			// a closure created in this function and called (or deferred) directly: if it is under contract,
+			// the contract is applied with the captured variables bound to this function's cells
+			if isClosure {
+				pp, key := fnKeyOf(fn)
+				if cl := e.prog.contract(pp, key); cl != nil && !cl.Trusted && len(mc.Bindings) == len(fn.FreeVars) {
+					cl.used = true
+					fvs := map[string]Val{}
+					for i, fv := range fn.FreeVars {
+						fvs[fv.Name()] = e.val(mc.Bindings[i])
+					}
+					e.callFvs = fvs
+					defer func() { e.callFvs = nil }()
+					var cpkg *types.Package
+					if fn.Pkg != nil {
+						cpkg = fn.Pkg.Pkg
+					}
+					return e.applyContract(cl, pkgBase(pp)+"."+key, cpkg, sigParamNames(fn.Signature), args, argTs, cc.Signature(), nil, resT, pos)
+				}
+			}
 			return e.opaqueCall(cc, args, resT, fn.String(), true, pos)
 		}
 		pp, key := fnKeyOf(fn)
@@ -414,7 +433,7 @@ func (e *FnEnc) recvNilCheck(fn *ssa.Function, args []Val, pos token.Pos) {}
 
 func (e *FnEnc) applyContract(c *FuncContract, calleeName string, calleePkg *types.Package, names []string, args []Val, argTs []types.Type, sig *types.Signature, invokeRecvT types.Type, resT types.Type, pos token.Pos) *Val {
 	pre := e.st.clone()
-	env := &specEnv{e: e, vars: map[string]Val{}, st: pre, old: pre, pkg: calleePkg}
+	env := &specEnv{e: e, vars: map[string]Val{}, st: pre, old: pre, pkg: calleePkg, fvs: e.callFvs}
 	var ptypes []types.Type
 	if invokeRecvT != nil {
 		ptypes = append(ptypes, invokeRecvT)
@@ -487,6 +506,9 @@ func (e *FnEnc) applyContract(c *FuncContract, calleeName string, calleePkg *typ
 				keeps = tr[6:]
 			}
 		}
+		if keeps == "" && strings.HasPrefix(e.c.Opaque["*"], "keeps:") {
+			keeps = e.c.Opaque["*"][6:]
+		}
 		if keeps != "" {
 			e.note("assumed frame: " + calleeName + " may write anything except " + keeps + " (in " + e.key + ")")
 			e.havocAllKeeping(keeps)
@@ -520,7 +542,7 @@ func (e *FnEnc) applyContract(c *FuncContract, calleeName string, calleePkg *typ
 			}
 		}
 	}
-	post := &specEnv{e: e, vars: env.vars, st: e.st, old: pre, results: results, pkg: calleePkg}
+	post := &specEnv{e: e, vars: env.vars, st: e.st, old: pre, results: results, pkg: calleePkg, fvs: env.fvs}
 	for i := 0; i < nres; i++ {
 		if n := sig.Results().At(i).Name(); n != "" && n != "_" {
 			if _, clash := post.vars[n]; !clash {
@@ -605,6 +627,10 @@ func (e *FnEnc) opaqueCall(cc *ssa.CallCommon, args []Val, resT types.Type, name
 				benign = true
 			}
 		}
+	}
+	if treat == "" && repo {
+		// `frame * ...`: default treatment of every contract-less repository callee of this function
+		treat = e.c.Opaque["*"]
 	}
 	switch {
 	case benign:
@@ -811,8 +837,9 @@ func (e *FnEnc) encAppend(cc *ssa.CallCommon, pos token.Pos) *Val {
 	e.setHeap("$alloc", "(Array Int Bool)", "(store "+allocA+" "+fr+" true)")
 	ncap := e.decl(e.fresh("appcap"), e.sorter.idxSort())
 	e.assume(sand(e.idxLe(newLen, ncap), e.idxLe(ncap, e.idxConst(1<<40))))
-	base := site(inPlace, s.L[0], fr)
-	off := site(inPlace, s.L[1], e.idxConst(0))
+	// named, so that the row-view lemma below can use them in a pattern (no `ite` inside patterns)
+	base := e.define(e.fresh("appresbase"), "Int", site(inPlace, s.L[0], fr))
+	off := e.define(e.fresh("appresoff"), e.sorter.idxSort(), site(inPlace, s.L[1], e.idxConst(0)))
 	cp := site(inPlace, s.L[3], ncap)
 	res := Val{T: cc.Args[0].Type(), L: []string{base, off, newLen, cp}}
 	if isAggregateElem(elT) {
